@@ -254,46 +254,84 @@ def r3(p, rep):
         rep.add("C01.R3", f"{f.qualname}:raises", f.loc, ok, "raises OperationNotSupportedError unconditionally" if ok else f"raises {kinds}")
 
 
+def _provenance(f, e, params, depth=0):
+    """Which of the given parameters do the *elements* of expression e come from?  Follows assignments from calls
+    (function of its arguments), comprehensions (elements of the iterated sequence, filters ignored), append loops."""
+    if depth > 8 or e is None:
+        return set()
+    if isinstance(e, ast.Name):
+        if e.id in params:
+            return {e.id}
+        out = set()
+        for n in walk_no_nested(f.node):
+            if isinstance(n, ast.Assign) and any(isinstance(t, ast.Name) and t.id == e.id for t in n.targets):
+                out |= _provenance(f, n.value, params, depth + 1)
+            elif isinstance(n, ast.Call) and isinstance(n.func, ast.Attribute) and n.func.attr in ("append", "extend") and isinstance(n.func.value, ast.Name) and n.func.value.id == e.id and n.args:
+                a = n.args[0]
+                # the appended element: a loop variable -> provenance of what is iterated
+                loop = enclosing(n, ast.For)
+                if isinstance(a, ast.Name) and loop is not None and any(isinstance(x, ast.Name) and x.id == a.id for x in ast.walk(loop.target)):
+                    out |= _provenance(f, loop.iter, params, depth + 1)
+                else:
+                    out |= _provenance(f, a, params, depth + 1)
+        return out
+    if isinstance(e, (ast.ListComp, ast.GeneratorExp, ast.SetComp)):
+        g = e.generators[0]
+        if isinstance(e.elt, ast.Name) and any(isinstance(x, ast.Name) and x.id == e.elt.id for x in ast.walk(g.target)):
+            return _provenance(f, g.iter, params, depth + 1)
+        return _provenance(f, g.iter, params, depth + 1)
+    if isinstance(e, ast.Call):
+        out = set()
+        for a in e.args:
+            out |= _provenance(f, a, params, depth + 1)
+        return out
+    if isinstance(e, (ast.Attribute, ast.Subscript)):
+        return _provenance(f, e.value, params, depth + 1)
+    if isinstance(e, (ast.List, ast.Tuple)):
+        out = set()
+        for x in e.elts:
+            out |= _provenance(f, x, params, depth + 1)
+        return out
+    return set()
+
+
 def r4(p, rep):
     rep.rule("C01.R4", "the alignment permutation iterates output axes and indexes input axes", "T-DER [S]", floor=1)
     f = p.func("_squeeze_transpose_broadcast", "adapter._util")
-    tcalls = [n for n in walk_no_nested(f.node) if isinstance(n, ast.Call) and norm(n.func) == "classical.transpose"]
+    tcalls = [n for n in walk_no_nested(f.node) if isinstance(n, ast.Call) and norm(n.func).endswith(".transpose")]
     if not tcalls:
         raise AnalysisError("unrecognised idiom: no classical.transpose call in _squeeze_transpose_broadcast")
-    # roles: IN = _to_axis_ids(expr_in) ; OUT = derived from _to_axis_ids(expr_out)
-    roles = {}
-    for n in walk_no_nested(f.node):
-        if isinstance(n, ast.Assign) and len(n.targets) == 1 and isinstance(n.targets[0], ast.Name):
-            v = norm(n.value)
-            if v == f"_to_axis_ids({f.params[1]})":
-                roles[n.targets[0].id] = "IN"
-            elif v == f"_to_axis_ids({f.params[3]})":
-                roles[n.targets[0].id] = "OUT"
-    for n in walk_no_nested(f.node):  # derived lists: [a for a in OUT if a in IN]
-        if isinstance(n, ast.Assign) and isinstance(n.value, ast.ListComp) and len(n.targets) == 1 and isinstance(n.targets[0], ast.Name):
-            it = n.value.generators[0].iter
-            if isinstance(it, ast.Name) and roles.get(it.id) in ("IN", "OUT") and norm(n.value.elt) == norm(n.value.generators[0].target):
-                roles[n.targets[0].id] = roles[it.id]
+    p_in, p_out = f.params[1], f.params[3]
+    roles = {p_in: "IN", p_out: "OUT"}
+
+    def index_comprehensions(e, depth=0):
+        """comprehensions `X.index(v) for v in Y` that define expression e (through names / tuple()/list())"""
+        if depth > 5 or e is None:
+            return []
+        if isinstance(e, (ast.ListComp, ast.GeneratorExp)) and isinstance(e.elt, ast.Call) and isinstance(e.elt.func, ast.Attribute) and e.elt.func.attr == "index":
+            return [e]
+        if isinstance(e, ast.Call) and isinstance(e.func, ast.Name) and e.func.id in ("tuple", "list") and e.args:
+            return index_comprehensions(e.args[0], depth + 1)
+        if isinstance(e, ast.Name):
+            out = []
+            for n in walk_no_nested(f.node):
+                if isinstance(n, ast.Assign) and any(isinstance(t, ast.Name) and t.id == e.id for t in n.targets):
+                    out += index_comprehensions(n.value, depth + 1)
+            return out
+        return []
+
     for tc in tcalls:
         parg = tc.args[1] if len(tc.args) > 1 else None
-        pname = None
-        for x in ast.walk(parg) if parg is not None else []:
-            if isinstance(x, ast.Name) and x.id != "tuple":
-                pname = x.id
-        defs = [n.value for n in walk_no_nested(f.node) if isinstance(n, ast.Assign) and any(isinstance(t, ast.Name) and t.id == pname for t in n.targets)]
-        ok, why = False, f"permutation `{pname}` not built in a recognised form"
-        for d in defs:
-            if isinstance(d, ast.ListComp) and isinstance(d.elt, ast.Call) and isinstance(d.elt.func, ast.Attribute) and d.elt.func.attr == "index":
-                indexed = norm(d.elt.func.value)
-                iterated = norm(d.generators[0].iter)
-                ri, ro = roles.get(indexed), roles.get(iterated)
-                ok = ri == "IN" and ro == "OUT"
-                why = f"`{norm(d)}`: for each {ro} axis its position in the {ri} axes" + ("" if ok else " - np.transpose expects, per output position, the index of the input axis; the inverse permutation gives correct shapes only when the swapped axes have equal length")
-        if not defs:
-            # explicit loop with append
-            why = "permutation is not a single comprehension (loop form not recognised)"
-            raise AnalysisError(f"unrecognised idiom in _squeeze_transpose_broadcast: {why}")
-        rep.add("C01.R4", f"{f.qualname}:perm", f"{f.module.rel}:{tc.lineno}", ok, why)
+        comps = index_comprehensions(parg)
+        if not comps:
+            raise AnalysisError("unrecognised idiom in _squeeze_transpose_broadcast: the permutation handed to transpose is not built as `X.index(v) for v in Y`")
+        for d in comps:
+            pi = _provenance(f, d.elt.func.value, {p_in, p_out})
+            po = _provenance(f, d.generators[0].iter, {p_in, p_out})
+            ri = "/".join(sorted(roles[x] for x in pi)) or "?"
+            ro = "/".join(sorted(roles[x] for x in po)) or "?"
+            ok = pi == {p_in} and po == {p_out}
+            rep.add("C01.R4", f"{f.qualname}:perm", f"{f.module.rel}:{tc.lineno}", ok, f"`{norm(d)}`: for each {ro} axis its position in the {ri} axes" + ("" if ok else " - np.transpose expects, per output position, the index of the input axis; the inverse permutation gives correct shapes only when the swapped axes have equal length"))
 
 
 LOWERING_MODULES = ("adapter.decomposednamedtensor_from_classical", "adapter.decomposednamedtensor_from_vmap", "adapter.decomposednamedtensor_from_einsum", "adapter.elementary_from_classical")
